@@ -10,6 +10,7 @@
 #include "common/verif.hpp"
 extern "C" {
 #include "cstl/vector.h"
+int vf_static_vector(struct cstl_vector *v, size_t es);
 }
 using namespace vf;
 typedef unsigned __int128 u128;
@@ -211,6 +212,8 @@ void slot_init(Slot &s, Model *m)
     memset(&s.v, 0xA5, sizeof s.v);      // init must set every field itself
     if (m->has_c || m->has_d)
         cstl_vector_init_complex(&s.v, m->es, m->has_c ? ctor_cb : nullptr, m->has_d ? dtor_cb : nullptr, m);
+    else if (((g_case_hash >> 21) & 1) && vf_static_vector(&s.v, m->es))
+        CNT("class.setup.static_initializer");       // CSTL_VECTOR_INITIALIZER(TYPE) instead of cstl_vector_init()
     else
         cstl_vector_init(&s.v, m->es);
     s.active = true;
